@@ -812,6 +812,15 @@ void HyperedgeImprover::execute(bool canMakeMajorChanges)
             continue;
         }
 
+        if (connRef->displayRoute().size() < 2)
+        {
+            // This connector has no route (yet), e.g., only one of its
+            // endpoints has been set.  There is nothing to improve, and the
+            // tree nodes created for it below would never be linked or freed.
+            ++connRefIt;
+            continue;
+        }
+
         bool seenFront = (m_hyperedge_tree_junctions.find(jFront) !=
                 m_hyperedge_tree_junctions.end());
         bool seenBack = (m_hyperedge_tree_junctions.find(jBack) !=
